@@ -24,7 +24,7 @@ def run(ctx):
     ctx.rule("C18.R2", "to_line and from_line agree on the record layout (count, big-endian 16-bit address, type, data, checksum)", floor=6)
     ctx.rule("C18.R3", "checksum: writer appends the two's complement of the byte sum, reader requires the sum to be 0 mod 256", floor=3)
     ctx.rule("C18.R4", "extended linear address: upper 16 bits written >>16 and read <<16; the running upper address advances at each 64 KiB crossing before the data record", floor=8)
-    ctx.rule("C18.R5", "regions: sorted before merging, adjacent merged, overlap raises; records after EOF raise", floor=4)
+    ctx.rule("C18.R5", "regions: sorted before merging, adjacent merged (scan restarted after each merge), overlap raises; add_region always registers and checks; records after EOF raise", floor=8)
     project = ctx.project
     mod = project.module(F)
     consts = {}
@@ -188,6 +188,25 @@ def run(ctx):
     mg = [n for n in walk_no_nested(chk) if isinstance(n, ast.If) and any((norm(l), op, norm(r)) == ("r1.end_address", "Eq", "r2.address") for l, op, r in compare_ops(n.test))]
     ok = bool(mg) and any(last_name(c) == "add_data" and norm(c.args[0]) == "r2.data" for c in calls_in(mg[0])) and any(last_name(c) == "remove" and norm(c.args[0]) == "r2" for c in calls_in(mg[0]))
     ctx.ob("C18.R5", F + ":HexFile.check", "adjacent regions are merged by appending the later region's data and removing it", ok, construct="merge")
+    # a merge changes the list that the pairs were taken from: the scan must restart
+    if mg:
+        fl_ = [a for a in _anc18(mg[0]) if isinstance(a, ast.For)]
+        snapshot = bool(fl_) and ("zip(" in norm(fl_[0].iter) or "list(" in norm(fl_[0].iter) or "[" in norm(fl_[0].iter))
+        leaves = any(isinstance(x, (ast.Break, ast.Return)) for b in mg[0].body for x in ast.walk(b))
+        ctx.ob("C18.R5", F + ":HexFile.check", "after a merge removed a region the pair scan is left and restarted (the remaining pairs were taken from the list before the removal and may name the removed region)",
+               (not snapshot) or leaves, construct="restart-after-merge", node=mg[0])
+        wl = [a for a in _anc18(mg[0]) if isinstance(a, ast.While)]
+        ctx.ob("C18.R5", F + ":HexFile.check", "merging repeats until a full scan finds nothing to merge", bool(wl) and any(isinstance(n, ast.Assign) and norm(n.targets[0]) in norm(wl[0].test) and norm(n.value) == "True" for n in ast.walk(mg[0])), construct="merge-fixpoint")
+    ar = ctx.fn(F, "HexFile.add_region")
+    from ..cfg import EXIT
+    cfg_ar = CFG(ar)
+    app = [cfg_ar.stmt_of(c) for c in calls_in(ar, "append") if norm(c.func.value) == "self.regions"]
+    chk_calls = [cfg_ar.stmt_of(c) for c in calls_in(ar, "check")]
+    ok = bool(app) and bool(chk_calls) and cfg_ar.must_pass(EXIT, lambda n: any(n is a for a in app)) and cfg_ar.must_pass(EXIT, lambda n: any(n is c for c in chk_calls)) and \
+        all(cfg_ar.must_pass(c, lambda n: any(n is a for a in app)) for c in chk_calls)
+    ctx.ob("C18.R5", F + ":HexFile.add_region", "every added chunk becomes a region of self.regions and is followed by check() on every path (no shortcut appends to a remembered region object: check() may have merged that object away)", ok, construct="add-region-always-checked")
+    cached = [n for n in ast.walk(ctx.cls(F, "HexFile")) if isinstance(n, ast.Assign) and isinstance(n.targets[0], ast.Attribute) and norm(n.targets[0].value) == "self" and isinstance(n.value, ast.Name) and n.value.id in ("region", "r1", "r2")]
+    ctx.ob("C18.R5", F + ":HexFile", "no region object is remembered outside self.regions", not cached, construct="no-region-alias", node=cached[0] if cached else None)
     ea = ctx.fn(F, "HexFileRegion.end_address")
     r = [n.value for n in walk_no_nested(ea) if isinstance(n, ast.Return)]
     ctx.ob("C18.R5", F + ":HexFileRegion.end_address", "end address = address + len(data)", bool(r) and norm(r[0]) in ("self.address + len(self.data)", "self.address + self.size", "len(self.data) + self.address"), construct="end-address")
@@ -196,6 +215,15 @@ def run(ctx):
 
 
 def _anc(n):
+    out = []
+    n = getattr(n, "_parent", None)
+    while n is not None:
+        out.append(n)
+        n = getattr(n, "_parent", None)
+    return out
+
+
+def _anc18(n):
     out = []
     n = getattr(n, "_parent", None)
     while n is not None:
